@@ -3,6 +3,7 @@ package props
 import (
 	"encoding/json"
 	"fmt"
+	"strconv"
 	"strings"
 	"testing"
 
@@ -67,6 +68,10 @@ const c12Rule = "C12: rapid-generated plans, each executed in a freshly started 
 func c12Record(c *concCase) {
 	cov.Eval(1)
 	ph := c.Plan.Phases[0]
+	if len(ph.Goroutines) == 1 && len(c.Plan.Phases) > 1 {
+		cov.Class("sequential-prelude")
+		ph = c.Plan.Phases[1]
+	}
 	first := map[int64]int{}
 	for _, g := range ph.Goroutines {
 		for i := range g {
@@ -102,6 +107,17 @@ func drawConcPlan(rt *rapid.T) plan {
 	p := plan{GOMAXPROCS: rapid.SampledFrom([]int{1, 2, 4, 16}).Draw(rt, "gomaxprocs")}
 	nph := rapid.IntRange(1, 3).Draw(rt, "phases")
 	seeds := 0
+	if rapid.IntRange(0, 2).Draw(rt, "prelude") == 0 {
+		// a sequential prelude (one goroutine; scripted and failing sources allowed): error paths and
+		// warm-up that happened before the goroutines start
+		n := rapid.IntRange(1, 5).Draw(rt, "prelude-calls")
+		ops := make([]op, 0, n+1)
+		for i := 0; i < n; i++ {
+			ops = append(ops, drawOp(rt, pool, true, false))
+		}
+		ops = append(ops, op{Kind: "new", N: 24, Lang: pool.langs[0], Source: []byte{1, 2, 3}}) // the source ends early
+		p.Phases = append(p.Phases, phase{Goroutines: [][]op{ops}})
+	}
 	for ph := 0; ph < nph; ph++ {
 		ng := rapid.OneOf(rapid.IntRange(2, 6), rapid.IntRange(2, 16)).Draw(rt, "goroutines")
 		var gs [][]op
@@ -117,6 +133,9 @@ func drawConcPlan(rt *rapid.T) plan {
 					// make the goroutine's first call a validation, so that cold starts collide
 					ti := rapid.IntRange(0, len(pool.texts)-1).Draw(rt, "text")
 					o = op{Kind: rapid.SampledFrom([]string{"check", "valid"}).Draw(rt, "vkind"), Text: text(pool.texts[ti]), Lang: pool.langs[rapid.IntRange(0, len(pool.langs)-1).Draw(rt, "vlang")]}
+				}
+				if (o.Kind == "check" || o.Kind == "valid") && rapid.IntRange(0, 3).Draw(rt, "respell") == 0 {
+					o.Text = text(gen.Respell(string(o.Text)).Draw(rt, "spelling").S) // not NFKD: goes through normalisation
 				}
 				if o.Kind != "seed" {
 					o.Repeat = rapid.SampledFrom([]int{0, 0, 0, 0, 20, 300}).Draw(rt, "repeat")
@@ -141,14 +160,21 @@ func TestC12_Plans(t *testing.T) {
 			s := ref.Encode(e, l)
 			var gs [][]op
 			for g := 0; g < 8; g++ {
-				ops := []op{{Kind: []string{"check", "valid"}[g%2], Lang: int64(implLang[l]), Text: text(s)}}
 				other := ref.Lang((int(l) + 1 + g%3) % int(ref.NumLangs))
-				ops = append(ops,
-					op{Kind: "check", Lang: int64(implLang[other]), Text: text(strings.Join(ref.Words(other, ref.Indices(e)), " "))},
-					op{Kind: "encode", Lang: int64(implLang[l]), Entropy: e},
-					op{Kind: "new", Lang: int64(implLang[l]), N: 12},
-					op{Kind: "string", Lang: int64(implLang[l])},
-				)
+				validate := op{Kind: []string{"check", "valid"}[g%2], Lang: int64(implLang[l]), Text: text(s)}
+				rest := []op{
+					{Kind: "check", Lang: int64(implLang[other]), Text: text(strings.Join(ref.Words(other, ref.Indices(e)), " "))},
+					{Kind: "encode", Lang: int64(implLang[l]), Entropy: e},
+					{Kind: "new", Lang: int64(implLang[l]), N: 12},
+					{Kind: "string", Lang: int64(implLang[l])},
+				}
+				var ops []op
+				if g%4 < 2 {
+					ops = append([]op{validate}, rest...) // validators first
+				} else {
+					// generators first: these goroutines read the list while others build the lookup table
+					ops = append([]op{rest[1], rest[2], rest[1]}, validate, rest[0], rest[3])
+				}
 				gs = append(gs, ops)
 			}
 			c := &concCase{Plan: plan{GOMAXPROCS: []int{16, 4, 2, 1}[int(l)%4], Phases: []phase{{Goroutines: gs}}}}
@@ -173,9 +199,21 @@ func TestC12_Plans(t *testing.T) {
 					{Kind: "string", Lang: int64(10 + g), Repeat: 3000},
 					{Kind: "valid", Lang: int64(implLang[l]), Text: text(ref.Encode(e, l)), Repeat: 600},
 					{Kind: "new", Lang: int64(implLang[l]), N: int64(ref.Counts[g%5]), Repeat: 300},
+					// spellings that are not NFKD (full-width / U+3000 / NFC), a different one per goroutine
+					{Kind: "check", Lang: int64(implLang[l]), Text: text(gen.FullWidth(ref.Encode(e, l))), Repeat: 400},
+					{Kind: "valid", Lang: int64(implLang[l]), Text: text(gen.Forms["NFC"].String(strings.ReplaceAll(ref.Encode(lz, l), " ", "\u3000")) + "\u3000x"), Repeat: 400},
+					// the neighbour's valid sentence under this goroutine's language (must stay rejected)
+					{Kind: "check", Lang: int64(implLang[l]), Text: text(ref.Encode(tableEntropiesSmall(round*31+(g+1)%8), ref.Lang((g+1+round)%int(ref.NumLangs)))), Repeat: 400},
+					{Kind: "seed", Text: text(ref.Encode(tableEntropiesSmall(g%2), ref.English)), Pass: text([]string{"", "TREZOR"}[g%2]), Repeat: 6},
+					{Kind: "seed", Text: text(gen.FullWidth("abandon ") + strconv.Itoa(g)), Pass: "x", Repeat: 3},
 				})
 			}
-			c := &concCase{Plan: plan{GOMAXPROCS: []int{16, 4, 2, 8, 16, 3}[round], Phases: []phase{{Goroutines: gs}}}}
+			prelude := phase{Goroutines: [][]op{{
+				{Kind: "new", N: 12, Lang: int64(implLang[ref.English]), Source: []byte{9, 9, 9}},        // fails: source ends
+				{Kind: "new", N: 24, Lang: int64(implLang[ref.Japanese]), Source: make([]byte, 31)},      // fails one byte short
+				{Kind: "check", Lang: int64(implLang[ref.English]), Text: "not a valid sentence at all"}, // fails
+			}}}
+			c := &concCase{Plan: plan{GOMAXPROCS: []int{16, 4, 2, 8, 16, 3}[round], Phases: []phase{prelude, {Goroutines: gs}}}}
 			c12Record(c)
 			cov.Class("hammer")
 			judge(t, "c12.plan", c12Check, c)
